@@ -125,7 +125,7 @@ def C1(ctx: Ctx) -> RuleResult:
 
     def guarded(f0, node, depth=0) -> bool:
         """the call is inside a try with an Exception handler, here or at every place this helper is called from"""
-        if _inside_broad_try(f0.node, node):
+        if _inside_broad_try(f0.node, node, f0.module):
             return True
         if f0 is fi or depth > 3:
             return False
@@ -155,7 +155,36 @@ def C1(ctx: Ctx) -> RuleResult:
     return r
 
 
-def _inside_broad_try(fn: ast.AST, target: ast.AST) -> bool:
+def _broad_exit_classes(fn: ast.AST, module) -> Set[str]:
+    """classes of the module whose __exit__ swallows Exception / BaseException (`isinstance(<its error argument>, Exception)` on
+    a way to `return True`): a `with` over an instance of one is a try with a broad handler"""
+    out: Set[str] = set()
+    for cname, ci in getattr(module, 'classes', {}).items():
+        ex = ci.methods.get('__exit__')
+        if ex is None or len(ex.params()) != 4:
+            continue
+        err = ex.params()[2]
+        tests = [n for n in ast.walk(ex.node) if isinstance(n, ast.Call) and isinstance(n.func, ast.Name) and n.func.id == 'isinstance' and len(n.args) == 2
+                 and isinstance(n.args[0], ast.Name) and n.args[0].id == err and any(isinstance(x, ast.Name) and x.id in ('Exception', 'BaseException') for x in ast.walk(n.args[1]))]
+        swallows = any(isinstance(n, ast.Return) and isinstance(n.value, ast.Constant) and n.value.value is True for n in ast.walk(ex.node))
+        if tests and swallows:
+            out.add(cname)
+    return out
+
+
+def _inside_broad_try(fn: ast.AST, target: ast.AST, module=None) -> bool:
+    if module is not None:
+        broad = _broad_exit_classes(fn, module)
+        if broad:
+            # names bound to an instance of such a class in this function
+            inst = {t.id for n in ast.walk(fn) if isinstance(n, ast.Assign) and isinstance(n.value, ast.Call) and isinstance(n.value.func, ast.Name) and n.value.func.id in broad
+                    for t in n.targets if isinstance(t, ast.Name)}
+            for node in ast.walk(fn):
+                if isinstance(node, ast.With) and any(target is x for b in node.body for x in ast.walk(b)):
+                    for it in node.items:
+                        ce = it.context_expr
+                        if (isinstance(ce, ast.Name) and ce.id in inst) or (isinstance(ce, ast.Call) and isinstance(ce.func, ast.Name) and ce.func.id in broad):
+                            return True
     for node in ast.walk(fn):
         if isinstance(node, ast.Try):
             inside = any(target is x for b in node.body for x in ast.walk(b))
